@@ -827,10 +827,79 @@ def rule_quat(repo, tier):
     return res
 
 
+@guarded
+def rule_angle_range(repo, tier):
+    """"... with the returned angles in their principal ranges."  Every alternative of the three returned angles is a principal-value function (atan2 in
+    (-pi, pi], asin in [-pi/2, pi/2], acos) times a factor of modulus at most one (a sign, pm(.)), or a constant zero.  A multiple such as 2 * atan2(x, w) ranges
+    over (-2 pi, 2 pi]: the quaternion with w < 0 of a gimbal-locked rotation gets a yaw outside the principal range."""
+    res = RuleResult('C11.ARANGE', 'LieTensor.euler: every alternative of the returned roll / pitch / yaw is +-1 times a principal-value function (atan2 / asin), or is '
+                     'reduced to the principal range (atan2(sin, cos), remainder) - never a multiple of one', floor=3)
+    f = repo.func('pypose.lietensor.lietensor', 'LieTensor.euler')
+    rets = returns_of(f.node)
+    v = inline_straight(f.node, upto=rets[-1]).value(rets[-1].value) if rets else None
+    if not (isinstance(v, ast.Call) and dotted(v.func) == 'torch.stack' and v.args and isinstance(v.args[0], (ast.List, ast.Tuple)) and len(v.args[0].elts) == 3):
+        raise AnalysisError('C11.ARANGE: LieTensor.euler no longer returns torch.stack([roll, pitch, yaw])')
+
+    def alts(e):
+        if isinstance(e, ast.Call) and dotted(e.func) == 'torch.where' and len(e.args) == 3:
+            return alts(e.args[1]) + alts(e.args[2])
+        if isinstance(e, ast.IfExp):
+            return alts(e.body) + alts(e.orelse)
+        return [e]
+
+    PRINCIPAL = ('atan2', 'arctan2', 'asin', 'arcsin', 'acos', 'arccos', 'atan', 'arctan')
+
+    def bound(e):
+        """multiplier m such that |e| <= m * (principal bound); None if not recognised"""
+        if isinstance(e, ast.Constant) and isinstance(e.value, (int, float)):
+            return 0 if e.value == 0 else None
+        if isinstance(e, ast.Call):
+            nm = (dotted(e.func) or (e.func.attr if isinstance(e.func, ast.Attribute) else '')).split('.')[-1]
+            if nm in PRINCIPAL:
+                return 1
+            if nm in ('zeros_like', 'zeros'):
+                return 0
+            if nm in ('remainder', 'fmod'):
+                return 1
+            if nm in ('clone', 'detach', 'squeeze', 'unsqueeze', 'type_as', 'to') and isinstance(e.func, ast.Attribute):
+                return bound(e.func.value)
+        if isinstance(e, ast.UnaryOp) and isinstance(e.op, (ast.USub, ast.UAdd)):
+            return bound(e.operand)
+        if isinstance(e, ast.BinOp) and isinstance(e.op, ast.Mult):
+            def factor(x):
+                if isinstance(x, ast.Constant) and isinstance(x.value, (int, float)):
+                    return abs(x.value)
+                if isinstance(x, ast.UnaryOp) and isinstance(x.op, ast.USub):
+                    return factor(x.operand)
+                if isinstance(x, ast.Call) and (dotted(x.func) or '').split('.')[-1] in ('pm', 'sign', 'sgn'):
+                    return 1
+                if isinstance(x, ast.BinOp) and isinstance(x.op, ast.Mult):
+                    a_, b_ = factor(x.left), factor(x.right)
+                    return None if a_ is None or b_ is None else a_ * b_
+                return None
+            for a_, b_ in ((e.left, e.right), (e.right, e.left)):
+                fa, bb = factor(a_), bound(b_)
+                if fa is not None and bb is not None:
+                    return fa * bb
+            return None
+        return None
+    for name, e in zip(('roll', 'pitch', 'yaw'), v.args[0].elts):
+        for a in alts(e):
+            m = bound(a)
+            res.inst({'function': f.fq, 'angle': name, 'alternative': src(a)[:60], 'multiple of the principal range': m}, (name, src(a)[:70]))
+            if m is None:
+                raise AnalysisError('C11.ARANGE: alternative `%s` of %s not understood' % (src(a)[:50], name))
+            if m > 1:
+                res.add(Finding('C11.ARANGE', f, 'the %s alternative `%s` is %g times a principal-value function: it ranges over %g times the principal interval, e.g. a yaw in '
+                                '(-2 pi, 2 pi] for gimbal-locked rotations whose quaternion has w < 0' % (name, src(a)[:60], m, m), node=rets[-1],
+                                construct='angle beyond the principal range|' + name))
+    return res
+
+
 def _rules_core(repo, tier):
     from ..effects import rule_pure
     t = [(CV, q) for q in ('mat2SO3', 'mat2SE3', 'mat2Sim3', 'mat2RxSO3', 'from_matrix', 'euler2SO3', 'quat2unit')]
-    return rule_mp_pair(repo) + [rule_fwd(repo), rule_raise(repo), rule_disp(repo), rule_lt(repo), rule_gimbal(repo, tier), rule_degree(repo, tier), rule_tcol(repo, tier), rule_pivots(repo, tier), rule_quant(repo, tier), rule_quat(repo, tier),
+    return rule_mp_pair(repo) + [rule_fwd(repo), rule_raise(repo), rule_disp(repo), rule_lt(repo), rule_gimbal(repo, tier), rule_degree(repo, tier), rule_tcol(repo, tier), rule_pivots(repo, tier), rule_quant(repo, tier), rule_quat(repo, tier), rule_angle_range(repo, tier),
                                  rule_pure(repo, 'C11.PURE', 'the converters do not write into the matrix / angles they are given (also not on the rejecting '
                                            'path): converting the same tensor twice gives the same element', t)]
 
